@@ -124,4 +124,14 @@ def seqErrs (W : Worker S Pkt Out) : S → List Pkt → Nat
   | _, [] => 0
   | st, p :: ps => errOf (W.step st p).2 + seqErrs W (W.step st p).1 ps
 
+/-! ### counting the outcomes returned by dispatch calls -/
+
+def nQueued (s : State S Pkt Out) : Nat := s.outcomes.countP (fun x => match x.2 with | .queued _ => true | _ => false)
+def nFull (s : State S Pkt Out) : Nat := s.outcomes.countP (fun x => match x.2 with | .droppedFull _ => true | _ => false)
+def nFullAt (s : State S Pkt Out) (w : Nat) : Nat := s.outcomes.countP (fun x => decide (x.2 = .droppedFull w))
+def nUnroutable (s : State S Pkt Out) : Nat := s.outcomes.countP (fun x => decide (x.2 = .droppedUnroutable))
+/-- Packets that a dispatch call reported `Queued` on worker `w`, in order. -/
+def queuedAt (s : State S Pkt Out) (w : Nat) : List Pkt :=
+  s.outcomes.filterMap (fun x => if x.2 = .queued w then some x.1 else none)
+
 end Huginn.Pool
